@@ -614,22 +614,22 @@ func (h *c07Hist) prefix() {
 	m0, m1 := h.pool[0].Root, h.pool[1].Root
 	h.doPost(a1.String(), m0, 3000, 1, 0, "{}") // no plan yet
 	h.doBuy(a1, a1.String(), 30, 3_000_000_000, "ujkl")
-	h.doPost(a1.String(), m0, 3000, 1, 0, "{}")  // used 3000
-	h.doPost(a1.String(), m0, 3000, 1, 0, "{}")  // identical re-post in the same block: still 3000, one file
-	h.doPost(a1.String(), m0, 2000, 2, 0, "{}")  // replaced by a different footprint
+	h.doPost(a1.String(), m0, 3000, 1, 0, "{}")                  // used 3000
+	h.doPost(a1.String(), m0, 3000, 1, 0, "{}")                  // identical re-post in the same block: still 3000, one file
+	h.doPost(a1.String(), m0, 2000, 2, 0, "{}")                  // replaced by a different footprint
 	h.doPost(a1.String(), m0, 3000, 1, h.e.Height+14400*3, "{}") // replaced by a pay-once file: plan usage back to 0
-	h.doPost(a1.String(), m0, 3000, 1, 0, "{}")  // and back
-	h.doDelete(a1.String(), hex.EncodeToString(m0), h.e.Height) // used 0
-	h.doPost(a1.String(), m0, -5000, 1, 0, "{}") // negative size
+	h.doPost(a1.String(), m0, 3000, 1, 0, "{}")                  // and back
+	h.doDelete(a1.String(), hex.EncodeToString(m0), h.e.Height)  // used 0
+	h.doPost(a1.String(), m0, -5000, 1, 0, "{}")                 // negative size
 	h.doPost(a1.String(), m0, 3000, 0, 0, "{}")
 	h.doPost(a1.String(), m0, math.MaxInt64/3+1, 3, 0, "{}")
-	h.doPost(a1.String(), m1, 1000, 3, -1, "{}") // negative expiry is plan-paid too
+	h.doPost(a1.String(), m1, 1000, 3, -1, "{}")                // negative expiry is plan-paid too
 	h.doDelete(a2.String(), hex.EncodeToString(m1), h.e.Height) // not the owner: nothing happens
 	h.doDelete(a1.String(), hex.EncodeToString(m1), h.e.Height)
 	h.doPost(strings.ToUpper(a1.String()), m1, 1000, 1, 0, "{}") // the plan is stored under the canonical spelling
 	// plan boundary
-	h.doPost(a1.String(), m0, 1_000_000_000, 3, 0, "{}")       // exactly everything
-	h.doPost(a1.String(), m1, 1, 1, 0, "{}")                   // one more byte
+	h.doPost(a1.String(), m0, 1_000_000_000, 3, 0, "{}") // exactly everything
+	h.doPost(a1.String(), m1, 1, 1, 0, "{}")             // one more byte
 	h.doDelete(a1.String(), hex.EncodeToString(m0), h.e.Height)
 	h.doPost(a1.String(), m0, 2_999_999_999, 1, 0, "{}")
 	h.doPost(a1.String(), m1, 1, 1, 0, "{}")
@@ -646,9 +646,9 @@ func (h *c07Hist) prefix() {
 	h.doPost(a2.String(), m1, 1<<62-1, 1, 0, "{}")
 	h.doDelete(a2.String(), hex.EncodeToString(m0), h.e.Height)
 	// files without provers are dropped by the chain after their first window
-	h.advance(47, 47*6*time.Second) // height 49
+	h.advance(47, 47*6*time.Second)                      // height 49
 	h.doPost(a1.String(), h.pool[3].Root, 1, 1, 0, "{}") // the last free byte; start + window < 100: dropped at 100
-	h.advance(1, 6*time.Second) // 50: start + window == 100, still young at the reward block
+	h.advance(1, 6*time.Second)                          // 50: start + window == 100, still young at the reward block
 	h.doBuy(a3, a3.String(), 31, 2_000_000_007, "ujkl")
 	h.doPost(a3.String(), h.pool[3].Root, 7, 3, 0, "{}")
 	h.doPost(a3.String(), m0, 70000, 2, h.e.Height+14400*2, "{}")
